@@ -1,6 +1,7 @@
 import PharmpyProofs.C14.DoseidLemmas
 import PharmpyProofs.C14.ExpandLemmas
 import PharmpyProofs.C14.TadLemmas
+import PharmpyProofs.C14.AdmidLemmas
 /-
   C14 — Dataset derivations agree with record-by-record event semantics.
   Property theorems only.  All theorems quantify over every record list (any
@@ -189,5 +190,46 @@ theorem nobs_per_individual_total (cfg : Cfg) (ds : List Rec) :
   · intro x hx
     rw [List.mem_mergeSort, mem_dedup]
     exact List.mem_map.mpr ⟨x, hx, rfl⟩
+
+/-! ## get_admid / get_cmt: administration and compartment identifiers -/
+
+/-- locality: at a boundary between two individuals the administration ids of the whole dataset are
+    those of the two parts computed on their own — no state crosses the boundary -/
+theorem admid_local (c : ACfg) (a b : List ERec)
+    (hb : a.getLast?.map (·.id) ≠ b.head?.map (·.id)) (ha : a ≠ []) (hb0 : b ≠ []) :
+    getAdmid c (a ++ b) = getAdmid c a ++ getAdmid c b := getAdmid_local c a b hb ha hb0
+
+/-- for every decomposition of the records into runs of one individual each (neighbouring runs of
+    different individuals) `get_admid` is the concatenation of the per-individual walks -/
+theorem admid_eq_walk (c : ACfg) (ds : List ERec) (bs : List (List ARow)) (h : GoodBlocks bs)
+    (hds : admRows c ds = bs.flatten) (hadm : c.hasAdm = false) :
+    getAdmid c ds = bs.flatMap indAdmid := by
+  unfold getAdmid
+  simp only [hadm, Bool.false_eq_true, if_false]
+  rw [hds]
+  exact admFill_blocks bs h
+
+/-- the ADMID series has one entry per record -/
+theorem admid_frame (c : ACfg) (ds : List ERec) : (getAdmid c ds).length = ds.length :=
+  getAdmid_length c ds
+
+/-- `get_cmt` is a per-record map: the value of a record does not depend on any other record -/
+theorem cmt_local (c : ACfg) (a b : List ERec) (x y : List Nat)
+    (hx : getCmt c a = some x) (hy : getCmt c b = some y) : getCmt c (a ++ b) = some (x ++ y) :=
+  getCmt_local c a b x y hx hy
+
+/-- the walk treats only EVID 1 as a dose (as the code does): an EVID 4 (reset and dose) record
+    after a pre-dose sample is labelled with the pre-dose value 0, not with its route 1 -/
+theorem admid_evid4_witness :
+    getAdmid ⟨false, false, 1, some 1, none, [(1, 1)]⟩ [⟨1, 0, 0, 0⟩, ⟨1, 4, 0, 0⟩, ⟨1, 0, 0, 0⟩] = [0, 0, 0] := by
+  decide +kernel
+
+/-- non-vacuity of `admid_eq_walk`: two individuals, the second starts with a pre-dose sample -/
+example :
+    let c : ACfg := ⟨false, false, 1, some 1, none, [(1, 1)]⟩
+    let ds : List ERec := [⟨1, 1, 0, 0⟩, ⟨1, 0, 0, 0⟩, ⟨2, 0, 0, 0⟩, ⟨2, 1, 0, 0⟩, ⟨2, 0, 0, 0⟩]
+    GoodBlocks [(admRows c ds).take 2, (admRows c ds).drop 2] ∧ getAdmid c ds = [1, 1, 0, 1, 1] := by
+  refine ⟨?_, by decide +kernel⟩
+  simp [GoodBlocks, ConstId, admRows]
 
 end Pharmpy.C14
